@@ -361,7 +361,7 @@ def c10(tier):
     return out
 
 
-def _with_generated(fn, select, n_quick, n_thorough, late=None, concat=False):
+def _with_generated(fn, select, n_quick, n_thorough, late=None, concat=False, register=True):
     """catalogue family + the generated specifications (contracts/randspec.py) that are relevant for the property;
     late: every third one additionally gets this history (declarations made only after a first transcription)"""
     def fam(tier):
@@ -375,6 +375,10 @@ def _with_generated(fn, select, n_quick, n_thorough, late=None, concat=False):
                 if concat and len(kw["states"]) >= 2 and not kw["scales"].get("der"):
                     # the right-hand sides given through ONE concatenation of the state symbols (reversed order)
                     out.append(("R%03d-%s-concatenated-declarations" % (i, kw["method"]), (lambda i=i: Spec(concat=True, **randspec.make(i)))))
+                if register and i % 4 == 2:
+                    # the same specification over the USER's own symbols (ocp.register_state / _control / _parameter / _variable,
+                    # lists of symbols where a kind has several)
+                    out.append(("R%03d-%s-registered-symbols" % (i, kw["method"]), (lambda i=i: Spec(register="list", **randspec.make(i)))))
                 if late and i % 3 == 0:
                     def fac(i=i):
                         kw = randspec.make(i)
@@ -434,6 +438,8 @@ def _c09_generated(tier):
                 ini, _ = randspec.make_initial(i, kw)
                 return Spec(late=dict(pvals=True), initial=ini, initial_after="all", **kw)
             out.append(("R%03d-%s-values-changed-then-guesses-given" % (i, kw["method"]), fac))
+        if i % 4 == 2:
+            out.append(("R%03d-%s-registered-symbols" % (i, kw["method"]), (lambda i=i: Spec(register="list", **randspec.make(i)))))
         if len([n for n in kw["params"].get("", []) if not isinstance(n, tuple)]) >= 2:
             out.append(("R%03d-%s-values-through-a-concatenation%s" % (i, kw["method"], "-also-after-transcription" if late else ""), (lambda i=i, late=late: Spec(late=late, concat=True, **randspec.make(i)))))
     for meth in ("MS", "SS", "DC"):
